@@ -38,6 +38,10 @@ Definition mk_ttab (t : raw_ttab) : list (Z * Z * Z) :=
 Definition mkrh (p : limbs) (h : list (list limbs * option limbs)) (b : list (string * option limbs))
   : raw_hasher := {| rh_prime := p; rh_hash := h; rh_bytes := b |}.
 
+Definition mkrf (p : list (string * option limbs)) (c : list (limbs * string))
+           (i : list (snum * limbs)) : raw_floats :=
+  {| rf_parse := p; rf_canon := c; rf_of_int := i |}.
+
 (* ---- inputs ---- *)
 Definition part_of (p : rpart) : part :=
   match p with RPS s => PStr s | RPI i => PInt (Uint63.to_Z i) end.
@@ -129,9 +133,14 @@ Definition obs_agree (o : obs) (r : rstep) : bool :=
 Inductive rmerk := RMOk (root : limbs) | RMErr.
 
 Inductive mcase :=
-  mkm (id : int) (cfg : bool) (hc hd : raw_hasher) (thl thm : raw_ttab)
-      (es : list rentry) (mo : rmerk) (steps : list rstep).
-Definition mc_id (c : mcase) : int := match c with mkm id _ _ _ _ _ _ _ _ => id end.
+| mkm (id : int) (cfg : bool) (hc hd : raw_hasher) (thl thm : raw_ttab)
+      (es : list rentry) (mo : rmerk) (steps : list rstep)
+  (* dataset-level case: the normalised dataset json-gold produced instead of the
+     entries, so that value conversion under the hasher's prime is inside the model *)
+| mkd (id : int) (cfg : bool) (hc hd : raw_hasher) (thl thm : raw_ttab)
+      (rf : raw_floats) (ds : dataset) (mo : rmerk) (steps : list rstep).
+Definition mc_id (c : mcase) : int :=
+  match c with mkm id _ _ _ _ _ _ _ _ => id | mkd id _ _ _ _ _ _ _ _ _ => id end.
 
 Definition max_levels : nat := 40.
 
@@ -146,6 +155,18 @@ Definition case_agree (q : Z) (c : mcase) : bool :=
       let h := hasher_or Hd (if cfg then Some (mk_hasher hc) else None) in
       let es' := map (wrap_entry h (Some h)) (map entry_of es) in
       match merklize_from_entries T Hd h None es', mo with
+      | Ok m, RMOk root =>
+          Z.eqb (mz_root T m) (z_of_limbs root)
+          && forallb (fun r => obs_agree (run_step T Hd m (step_of r)) r) steps
+      | Err _, RMErr => true
+      | _, _ => false
+      end
+  | mkd _ cfg hc hd thl thm rf ds mo steps =>
+      let Hd := mk_hasher hd in
+      let tl := mk_ttab thl in
+      let tm := mk_ttab thm in
+      let T := mktp (fun a b => tlook2 a b tl) (fun a b => tlook2 a b tm) max_levels q in
+      match merklize_ds T Hd (mk_floats rf) (if cfg then Some (mk_hasher hc) else None) None ds, mo with
       | Ok m, RMOk root =>
           Z.eqb (mz_root T m) (z_of_limbs root)
           && forallb (fun r => obs_agree (run_step T Hd m (step_of r)) r) steps
